@@ -20,13 +20,13 @@ from hypothesis import strategies as st  # noqa: E402
 
 from vlib import consts as K  # noqa: E402
 from vlib.env import Stage, Template, hx  # noqa: E402
-from vlib.objects import T  # noqa: E402
+from vlib.objects import T, base_template  # noqa: E402
 from vlib.runner import Check, Violation, main  # noqa: E402
 from vlib.worker import Worker, WorkerDied  # noqa: E402
 
 RW = K.CKF_SERIAL_SESSION | K.CKF_RW_SESSION
 OPS = ["open", "close", "create_s", "create_s", "create_t", "create_t", "find_own", "find_own", "find_all", "find_all", "set", "read", "destroy", "destroy",
-       "digest", "hmac", "login", "logout", "create_priv", "sessinfo", "genkey", "random", "priv_read", "priv_read", "priv_make", "priv_make"]
+       "digest", "hmac", "login", "logout", "create_priv", "sessinfo", "genkey", "random", "priv_read", "priv_read", "priv_make", "priv_make", "reauth"]
 SHARED_PRIVATE = b"shared-private-value-of-c18-" + bytes(range(40))
 
 
@@ -148,6 +148,17 @@ class C18(Check):
                     meta.append({"op": "create_priv"})
                     cmds.append({"fn": "readattrs", "s": V("s0"), "o": V("pm"), "types": [K.CKA_VALUE]})
                     meta.append({"op": "priv_own_read", "val": val.hex()})
+                elif name == "reauth":
+                    # a private-key operation that needs a context-specific login (the PIN is verified with the token's key material)
+                    cmds.append({"fn": "C_CreateObject", "s": V("s0"), "save": "aa",
+                                 "tpl": T(*base_template("rsa_priv", 0)) + T(("CKA_TOKEN", False), ("CKA_PRIVATE", True), ("CKA_SIGN", True), ("CKA_ALWAYS_AUTHENTICATE", True))})
+                    meta.append({"op": "reauth_key"})
+                    cmds.append({"fn": "C_SignInit", "s": V("s0"), "mech": {"m": K.CKM_RSA_PKCS}, "key": V("aa")})
+                    meta.append({"op": "reauth_init"})
+                    cmds.append({"fn": "C_Login", "s": V("s0"), "user": K.CKU_CONTEXT_SPECIFIC, "pin": hx(tok.user_pin)})
+                    meta.append({"op": "reauth_login"})
+                    cmds.append({"fn": "C_Sign", "s": V("s0"), "data": (b"c18-reauth-%d" % t).hex(), "out": 512})
+                    meta.append({"op": "reauth_sign"})
                 elif name == "sessinfo":
                     cmds.append({"fn": "C_GetSessionInfo", "s": V("s0")})
                     meta.append({"op": "sessinfo"})
@@ -165,6 +176,10 @@ class C18(Check):
         return threads, metas
 
     def run_program(self, ctx, prog):
+        self.execute(ctx, prog)
+
+    def execute(self, ctx, prog):
+        """runs the program under its schedule and judges it -> the executor's result"""
         tplt = ctx.shared["tpl"]
         toks = tplt.tokens
         sb = ctx.env.sandbox(template=tplt)
@@ -187,8 +202,75 @@ class C18(Check):
                 w.close()
             ctx.steps += sum(len(t) for t in threads)
             self.judge(ctx, prog, toks, threads, metas, res)
+            return res, threads
         finally:
             sb.remove()
+
+    # -- depth-1 preemption sweep: deterministic, no generator ------------------------------------------------------------------------
+    # thread 0: set-up calls, then ONE target call; thread 1: a short program.  For EVERY scheduling point inside the target call (every mutex
+    # callback) one run: thread 0 runs alone up to that point, then thread 1 runs (to its end, or until it blocks), then thread 0 resumes.
+    SWEEP_T0 = {
+        "close": ([["open", 0, 1]], ["close", 0, 0], True),
+        "open": ([], ["open", 0, 1], True),
+        "create_s": ([], ["create_s", 0, 0], True),
+        "create_t": ([], ["create_t", 0, 0], True),
+        "destroy_s": ([["create_s", 0, 0]], ["destroy", 0, 0], True),
+        "destroy_t": ([["create_t", 0, 0]], ["destroy", 0, 0], True),
+        "set_t": ([["create_t", 0, 0]], ["set", 0, 5], True),
+        "find_all": ([["create_s", 0, 0]], ["find_all", 0, 0], True),
+        "logout": ([], ["logout", 0, 0], True),
+        "login": ([], ["login", 0, 0], False),
+        "priv_make": ([], ["priv_make", 0, 1], True),
+        "priv_read": ([], ["priv_read", 0, 0], True),
+        "genkey": ([], ["genkey", 0, 0], True),
+        "reauth": ([], ["reauth", 0, 0], True),
+    }
+    SWEEP_T1 = {
+        "create_s+find": [["create_s", 0, 0], ["find_own", 0, 0], ["find_all", 0, 0]],
+        "create_t+find+read": [["create_t", 0, 0], ["find_own", 0, 0], ["read", 0, 0]],
+        "priv_read": [["priv_read", 0, 0]],
+        "find_all": [["find_all", 0, 0]],
+        "logout+login": [["logout", 0, 0], ["login", 0, 0]],
+        "open+close": [["open", 0, 1], ["close", 0, 0]],
+        "create_t+set+destroy": [["create_t", 0, 0], ["set", 0, 3], ["destroy", 0, 0]],
+        "priv_make": [["priv_make", 0, 2]],
+    }
+
+    def extra(self, ctx, tier, shard, nshards):
+        pairs = [(a, b) for a in sorted(self.SWEEP_T0) for b in sorted(self.SWEEP_T1)]
+        cap = 24 if tier == "quick" else 600          # points per pair: all of a short call, evenly spaced ones (offset rotating with the seed) of a long one
+        total = 0
+        for n, (a, b) in enumerate(pairs):
+            if n % nshards != shard:
+                continue
+            setup_ops, target, logged_in = self.SWEEP_T0[a]
+            base = {"nthreads": 2, "threads": [setup_ops + [target], self.SWEEP_T1[b]], "mode": "controlled", "tokens": [0, 0], "start_logged_in": logged_in,
+                    "sweep": [a, b]}
+            # where the target call sits in scheduler steps: a run in which thread 0 is never preempted
+            res, threads = self.execute(ctx, dict(base, schedule=[0] + [99] * 3000))
+            r0 = res["threads"][0]
+            ncmd_setup = len(self.compile(dict(base, threads=[setup_ops, []]), ctx.shared["tpl"].tokens)[0][0])
+            lo, hi = r0[ncmd_setup]["t0"], r0[-1]["t1"] + 1
+            ctx.label("sweep_pairs")
+            ctx.label("sweep_points_total", hi - lo + 1)
+            if b == sorted(self.SWEEP_T1)[0]:
+                ctx.extra.setdefault("sweep_points_of_target_call", {})[a] = hi - lo + 1
+            npts = hi - lo + 1
+            if npts <= cap:
+                points = list(range(lo, hi + 1))
+            else:
+                points = sorted({lo + ((i * npts) // cap + (ctx.seed * 7 + n) % max(1, npts // cap)) % npts for i in range(cap)})
+            for j in points:
+                prog = dict(base, schedule=[0] + [99] * (j - 1) + [1] + [99] * 3000)
+                try:
+                    self.execute(ctx, prog)
+                except WorkerDied as d:
+                    v = self.on_worker_death(ctx, prog, d)
+                    if v is not None:
+                        return v
+                ctx.label("sweep_runs")
+                total += 1
+        return None
 
     def probe_known(self, ctx, entry):
         """KF-C18-01: does a private-object creation still answer CKR_GENERAL_ERROR when a logout of another thread cuts in?"""
@@ -454,6 +536,18 @@ class C18(Check):
                             ctx.label("private_reads_judged")
                         elif v[0] == 0 and v[1] != m["val"]:
                             raise bad("%s: the thread's own private object reads a wrong value %s" % (where, str(v[1])[:40]))
+                elif op == "reauth_sign":
+                    # judged only when the user was logged in during the whole of the four calls
+                    first = R[t][i - 3]
+                    S = possible_login(tok, {"t0": first["t0"], "t1": r["t1"]})
+                    if prog.get("start_logged_in") and S == {"in"} and not logout_overlaps(tok, {"t0": first["t0"], "t1": r["t1"]}):
+                        rvs = [R[t][j]["rv"] for j in range(i - 3, i + 1)]
+                        if rvs != [0, 0, 0, 0]:
+                            raise bad("%s: create key / C_SignInit / C_Login(CONTEXT_SPECIFIC) / C_Sign with an ALWAYS_AUTHENTICATE key returned %s while the user "
+                                      "is logged in all the time" % (where, [K.rvname(x) for x in rvs]))
+                        ctx.label("reauth_judged")
+                    if R[t][i - 3]["rv"] == 0:
+                        handles.append((R[t][i - 3]["h"], where))
                 elif op == "sessinfo":
                     S = possible_login(tok, r)
                     if rv != 0:
